@@ -57,10 +57,17 @@ def oracles():
         o[arch].append(("go syscall zsysnum_linux_%s.go" % ga, parse_go_sysnum(first_existing(os.path.join(goroot, "src/syscall/zsysnum_linux_%s.go" % ga),
                                                                                            os.path.join(ORACLE, "go_syscall/zsysnum_linux_%s.go" % ga)))))
         o[arch].append(("x/sys/unix zsysnum_linux_%s.go" % ga, parse_go_sysnum(os.path.join(ORACLE, "xsys/zsysnum_linux_%s.go" % ga))))
+    # the ARM private calls (no other source on this machine lists them): __ARM_NR_BASE + n of the kernel's ARM unistd.h
+    atxt = open(k + "/arm-unistd-private.h").read()
+    base = int(re.search(r"#define __ARM_NR_BASE\s+\(__NR_SYSCALL_BASE\+(0x[0-9a-f]+)\)", atxt).group(1), 16)
+    private = {name: base + int(n) for name, n in re.findall(r"#define __ARM_NR_(\w+)\s+\(__ARM_NR_BASE\+(\d+)\)", atxt)}
     for a in o:
         for name, t in o[a]:
             if len(t) < 200:
                 raise vlib.Machinery("oracle %s for %s parsed to only %d entries" % (name, a, len(t)))
+    if len(private) != 6:
+        raise vlib.Machinery("oracle arm-unistd-private.h parsed to %d entries" % len(private))
+    o["ARM"].append(("kernel arch/arm unistd.h (private calls)", private))
     return o
 
 
@@ -180,7 +187,7 @@ def check(ctx, replay=None):
                 viol.append(("%s disagrees with %s on %d names (e.g. %s)" % (v, oname, len(bad), bad[:3]), {"arch": v, "oracle": oname, "names": [b[0] for b in bad[:10]]}))
             common = len([s for s in t if s in a["names"]])
             ctx.cov["evaluations"] += common
-            if common < 150:
+            if len(t) >= 150 and common < 150:
                 raise vlib.Machinery("oracle %s shares only %d names with table %s" % (oname, common, v))
             # number -> name direction: notes only (naming conventions differ between sources)
             inv = {n: s for s, n in t.items()}
